@@ -48,8 +48,34 @@ func representable(w uint64, x *big.Int) bool {
 	return x.Cmp(lo) >= 0 && x.Cmp(pow2(w)) < 0
 }
 
+// one constant object per width, whose value is updated in place from one value to the next: what it prints must
+// be what a fresh constant with that value prints
+var c09Reused = map[uint64]*constant.Int{}
+
 func c09Value(c *config, w uint64, x *big.Int, label string) {
 	o := c.out
+	if w > 1 {
+		obj := c09Reused[w]
+		if obj == nil {
+			obj = &constant.Int{Typ: types.NewInt(w), X: new(big.Int)}
+			c09Reused[w] = obj
+		}
+		var before, after, fresh string
+		oc, _ := guard(func() error {
+			before = obj.Ident()
+			obj.X.Set(x) // in place
+			after = obj.Ident()
+			fresh = (&constant.Int{Typ: types.NewInt(w), X: new(big.Int).Set(x)}).Ident()
+			return nil
+		})
+		if oc == ocOk {
+			if after != fresh {
+				o.Fail("print_parse", "", "a constant whose value was updated in place prints a literal that is not the one of its value", map[string]interface{}{"width": w, "value": x.String(), "printed": after, "fresh_constant_prints": fresh, "printed_before_the_update": before})
+			} else {
+				o.Pass("print_parse")
+			}
+		}
+	}
 	o.Stat("values." + label)
 	o.Nontrivial(fmt.Sprintf("%d:%s", w, x))
 	// print, then parse
